@@ -331,7 +331,7 @@ func lookup(instr *ssa.Lookup, x, idx value) value {
 		var ok bool
 		switch x := x.(type) {
 		case map[value]value:
-			v, ok = x[idx]
+			v, ok = mapGet(x, idx)
 		case *hashmap:
 			v = x.lookup(idx.(hashable))
 			ok = v != nil
@@ -1024,7 +1024,7 @@ func callBuiltin(caller *frame, callpos token.Pos, fn *ssa.Builtin, args []value
 	case "delete": // delete(map[K]value, K)
 		switch m := args[0].(type) {
 		case map[value]value:
-			mapDelete(m, args[1])
+			mapDeleteAny(m, args[1])
 		case *hashmap:
 			m.delete(args[1].(hashable))
 		default:
@@ -1038,6 +1038,7 @@ func callBuiltin(caller *frame, callpos token.Pos, fn *ssa.Builtin, args []value
 			for _, k := range mapKeys(m) {
 				mapDelete(m, k)
 			}
+			delete(symEntries, mapID(m))
 		case *hashmap:
 			if m != nil {
 				m.table = map[int]*entry{}
@@ -1083,7 +1084,7 @@ func callBuiltin(caller *frame, callpos token.Pos, fn *ssa.Builtin, args []value
 		case []value:
 			return len(x)
 		case map[value]value:
-			return len(x)
+			return mapLen(x)
 		case *hashmap:
 			return x.len()
 		case chan value:
@@ -1169,7 +1170,7 @@ func callBuiltin(caller *frame, callpos token.Pos, fn *ssa.Builtin, args []value
 func rangeIter(x value, t types.Type) iter {
 	switch x := x.(type) {
 	case map[value]value:
-		return &mapIter{m: x, keys: mapKeys(x)}
+		return &mapIter{m: x, entries: mapEntries(x)}
 	case *hashmap:
 		return &hashmapIter{entries: x.orderedEntries()}
 	case string:
